@@ -43,6 +43,9 @@ type C11Case struct {
 	// ParkSend (caller-cancel, bidi): when the caller cancels, one of its own SendMsg calls is parked inside the
 	// transport write (a second goroutine of the caller, as the API permits)
 	ParkSend bool `json:"park_send,omitempty"`
+	// CloseFirst (handler-early): the caller half-closes right after its last message, while the handler is still busy
+	// (so the half-close reaches the server behind the unread messages, before the handler returns) instead of after
+	CloseFirst bool `json:"close_first,omitempty"`
 }
 
 func genC11(t *rapid.T) C11Case {
@@ -58,6 +61,7 @@ func genC11(t *rapid.T) C11Case {
 		c.N = rapid.IntRange(1, 8).Draw(t, "n")
 		c.K = rapid.IntRange(0, c.N-1).Draw(t, "k")
 		c.RetErr = rapid.Bool().Draw(t, "reterr")
+		c.CloseFirst = rapid.Bool().Draw(t, "close_first")
 	case "caller-cancel":
 		c.Kind = rapid.SampledFrom([]int{kit.KindServer, kit.KindBidi}).Draw(t, "skind")
 		c.M = rapid.IntRange(0, 8).Draw(t, "m")
@@ -82,6 +86,7 @@ func c11Grid() []C11Case {
 		for n := 1; n <= 8; n++ {
 			for k := 0; k < n; k++ {
 				out = append(out, C11Case{Mode: "handler-early", Kind: kind, K: k, N: n, RetErr: (n+k)%2 == 0, By: (n + k) % 3, Deadline: (n*k)%2 == 1})
+				out = append(out, C11Case{Mode: "handler-early", Kind: kind, K: k, N: n, RetErr: (n+k)%2 == 1, By: (n + k + 1) % 3, CloseFirst: true})
 			}
 		}
 	}
@@ -230,13 +235,18 @@ func execC11(t *testing.T, c C11Case) (v Verdict) {
 				for i := 0; i < c.N; i++ {
 					_ = kit.SendBytes(cs, []byte{byte(i)})
 				}
-				kit.Settle() // n-k bodies are now queued in the server behind the idle handler
+				if c.CloseFirst {
+					_ = cs.CloseSend()
+				}
+				kit.Settle() // n-k bodies (and the half-close) are now queued in the server behind the idle handler
 				startBystanders(cc, &wg)
 				kit.Settle()
 				sched.ReleaseGate("handler-return")
 				kit.Settle()
 				go func() {
-					_ = cs.CloseSend()
+					if !c.CloseFirst {
+						_ = cs.CloseSend()
+					}
 					for {
 						if _, err := kit.RecvBytes(cs); err != nil {
 							o := kit.Observe(err)
@@ -483,7 +493,7 @@ func execC11(t *testing.T, c C11Case) (v Verdict) {
 	labels := []string{"mode=" + c.Mode, "kind=" + kit.KindNames[c.Kind], fmt.Sprintf("by=%d", c.By), fmt.Sprintf("deadline=%v", c.Deadline)}
 	nt := c.By >= 1
 	if c.Mode == "handler-early" {
-		labels = append(labels, fmt.Sprintf("unread_bodies=%d", c.N-c.K))
+		labels = append(labels, fmt.Sprintf("unread_bodies=%d", c.N-c.K), fmt.Sprintf("close_first=%v", c.CloseFirst))
 		nt = nt || c.N-c.K >= 2
 	}
 	if c.Mode == "caller-cancel" {
